@@ -2,7 +2,9 @@ package rules
 
 import (
 	"fmt"
+	"golang.org/x/tools/go/ssa"
 	"os"
+	"strings"
 
 	"jsverif/internal/obl"
 	"jsverif/internal/prog"
@@ -73,5 +75,95 @@ func init() {
 			fmt.Fprintln(os.Stderr, "PROBLEM", p)
 		}
 		fmt.Println(t.DumpContextRef())
+	}
+}
+
+func init() {
+	dumpers["sccs"] = func(c *Ctx) {
+		roots := append(c.ssaRoots(buildRoots...), c.ssaRoots(serialiseRoots...)...)
+		roots = append(roots, c.marshalRoots(nil)...)
+		reach := c.reachableLib(roots, nil)
+		fmt.Println("reachable lib functions:", len(reach))
+		for _, comp := range c.libSCCs(reach) {
+			var names []string
+			for _, f := range comp {
+				names = append(names, prog.SSAName(f))
+			}
+			fmt.Println("SCC:", names)
+		}
+	}
+}
+
+func init() {
+	dumpers["nil"] = func(c *Ctx) {
+		nf := c.nilableFields()
+		fmt.Println("nilable fields:", len(nf))
+		cfgs := map[*Fn]*funcCFG{}
+		n, un := 0, 0
+		for _, s := range c.derefSites(nf) {
+			n++
+			cf := cfgs[s.f]
+			if cf == nil {
+				cf = buildCFG(s.f.Decl.Body)
+				cfgs[s.f] = cf
+			}
+			g := guardedNonNil(s.f.Pkg, cf, s.f.Decl.Body, s.node, c.stackOf(s.f, s.node), s.path)
+			if g == "" {
+				un++
+				fmt.Printf("UNGUARDED %s.%s in %s at %s: %s\n", c.structOfField(s.field), s.field.Name(), s.f.Name(), c.pos(s.node.Pos()), exprString(s.base))
+			}
+		}
+		fmt.Println("deref sites", n, "unguarded", un)
+	}
+}
+
+func init() {
+	dumpers["path"] = func(c *Ctx) {
+		// print a call path from the build roots to the function named in os.Args[3]
+		target := os.Args[3]
+		cg := c.P.CallGraph()
+		roots := c.ssaRoots(buildRoots...)
+		prev := map[*ssa.Function]*ssa.Function{}
+		var work []*ssa.Function
+		for _, r := range roots {
+			prev[r] = nil
+			work = append(work, r)
+		}
+		for len(work) > 0 {
+			f := work[0]
+			work = work[1:]
+			if prog.SSAName(f) == target {
+				for x := f; x != nil; x = prev[x] {
+					fmt.Println("  <-", prog.SSAName(x))
+				}
+				return
+			}
+			var next []*ssa.Function
+			next = append(next, f.AnonFuncs...)
+			if n := cg.Nodes[f]; n != nil {
+				for _, e := range n.Out {
+					next = append(next, e.Callee.Func)
+				}
+			}
+			for _, g := range next {
+				if _, ok := prev[g]; !ok && g != nil {
+					prev[g] = f
+					work = append(work, g)
+				}
+			}
+		}
+		fmt.Println("not reachable")
+	}
+}
+
+func init() {
+	dumpers["reach"] = func(c *Ctx) {
+		reach := c.reachableLib(c.ssaRoots(buildRoots...), nil)
+		for f := range reach {
+			n := prog.SSAName(f)
+			if strings.Contains(n, os.Args[3]) {
+				fmt.Println(n, "synthetic:", f.Synthetic, "decl:", declOf(f))
+			}
+		}
 	}
 }
